@@ -344,7 +344,9 @@ func RunAdversary(c *Ctx) {
 						continue // these classes always target the height after the proposer's last block
 					}
 					for applied := 0; applied <= nb; applied++ {
-						if !c.Thorough() && rng.Intn(3) != 0 {
+						// (the unsigned-data classes have few cases: all of them in every tier, so that what they show does
+						// not depend on the sample)
+						if !c.Thorough() && class[0] != 'P' && rng.Intn(3) != 0 {
 							continue
 						}
 						for _, gvia := range []string{"da", "chan"} {
